@@ -108,6 +108,42 @@ def run(chk):
             for sl in ((sa, sb, sa) if qi % 2 == 0 else (sb, sa)):
                 ib = cs.p3(sl, pos, d, ps)
                 plan.append((ib, cs.p3(sl, pos, d, [[4, 0, 0]]), sl, d, ps))
+    # one area feature whose bottom (or top) is a depth surface listed at points, the other bound a constant: at a listed point the
+    # local bound is the listed value, so depths between it and the extreme value of the surface are outside the feature (decided
+    # here, not by the tag the implementation returns): the background state is expected there
+    gap_plan = []
+    for wi in range(9 if chk.tier == "quick" else 60):
+        rng.seed("%d/c03-3/%d" % (chk.seed, wi))
+        sph = wi % 2 == 1
+        kind = ["mantle layer", "continental plate", "oceanic plate"][wi % 3]
+        c0 = (rng.uniform(-60, 60), rng.uniform(-40, 40)) if sph else (rng.uniform(-1e6, 1e6), rng.uniform(-1e6, 1e6))
+        sz = 12.0 if sph else 6e5
+        coords = [[c0[0] - sz, c0[1] - sz], [c0[0] + sz, c0[1] - sz], [c0[0] + sz, c0[1] + sz], [c0[0] - sz, c0[1] + sz]]
+        pts = [[round(c0[0] + rng.uniform(-0.6, 0.6) * sz, 3), round(c0[1] + rng.uniform(-0.6, 0.6) * sz, 3)] for _ in range(2)]
+        f = {"model": kind, "name": "gap", "coordinates": coords, "temperature models": [{"model": "uniform", "temperature": 500.0}],
+             "composition models": [{"model": "uniform", "compositions": [0]}]}
+        bottom = (wi // 3) % 2 == 0
+        if bottom:
+            deep, shallow = float(round(rng.uniform(2.5e5, 4e5))), float(round(rng.uniform(6e4, 1.5e5)))
+            f["max depth"] = [[deep], [shallow, pts]]
+            f["min depth"] = 0.0 if wi % 4 else float(round(rng.uniform(1e3, 3e4)))
+            lo_, hi_ = shallow, deep
+        else:
+            deep, shallow = float(round(rng.uniform(1.5e5, 2.5e5))), float(round(rng.uniform(1e4, 5e4)))
+            f["min depth"] = [[shallow], [deep, pts]]
+            f["max depth"] = float(round(rng.uniform(3e5, 5e5)))
+            lo_, hi_ = shallow, deep
+        wj = {"version": "1.1", "features": [f]}
+        if sph:
+            wj["coordinate system"] = {"model": "spherical", "depth method": "begin segment"}
+        slot = cs.add_world(wj)
+        el = cs.worlds[slot][2]
+        for pt in pts:
+            for k in range(4):
+                d = float(round(lo_ + (hi_ - lo_) * (0.1 + 0.8 * rng.random())))
+                pos = cart_point(sph, pt[0], pt[1], d, el.radius) if sph else cart_point(False, pt[0], pt[1], d)
+                ps = [[1, 0, 0], [2, 0, 0], [4, 0, 0]]
+                gap_plan.append((cs.p3(slot, pos, d, ps), slot, d, ps))
     impl, model = cs.run()
     chk.evaluations = len(impl)
     bad = [i for i in chk.correspond(impl, model, cs, max_ulp=0) if model[i] != "skip"]
@@ -136,6 +172,16 @@ def run(chk):
                     if b[offs[j]] != el.Ts:
                         viol.append(("forced surface temperature not returned at depth 0 (block %d)" % j, ib, el.Ts))
                         break
+    for (ib, slot, d, ps) in gap_plan:
+        el = cs.worlds[slot][2]
+        b = common.parse_vec(impl[ib])
+        if b is None:
+            continue
+        chk.count("between the local bound of a depth surface and its extreme value")
+        chk.nontriv(cs.probe[ib])
+        exp = background(el, d, ps)
+        if len(b) != len(exp) or any(common.ulps(x, y) > 0 for x, y in zip(b, exp)):
+            viol.append(("background state not returned outside every feature (beyond the local bound of the feature's depth surface)", ib, exp))
     for (ib, it, slot, d, ps) in plan[:3]:
         chk.sample({"query": cs.probe[ib], "answer": impl[ib][:160]})
     for what, idx, exp in viol[:5]:
